@@ -501,6 +501,20 @@ func parseIDs(s string) ([]int, bool) {
 	return out, true
 }
 
+// guard runs f; the panics with which the code refuses a call out of protocol (StartAggressiveLocking inside a stage,
+// Retry/Cancel/Done outside) are an expected answer (`refused`), any other panic is a failure (`panic`).
+func guard(f func() string) (out string) {
+	defer func() {
+		if e := recover(); e != nil {
+			out = "panic"
+			if s, ok := e.(string); ok && strings.HasPrefix(s, "Trying to ") && strings.Contains(s, "aggressive locking") {
+				out = "refused"
+			}
+		}
+	}()
+	return f()
+}
+
 // exec runs one op (the words of an op line; observed answers of an earlier run are ignored) and returns the op line with
 // the answers observed now and the implementation's result line.
 func (w *world) exec(ws []string) (string, string) {
@@ -510,7 +524,7 @@ func (w *world) exec(ws []string) (string, string) {
 			return ws[0], w.state("closed")
 		}
 		w.clearRec()
-		res := vx.Guard(f)
+		res := guard(f)
 		if !w.drain() {
 			return ws[0], "FAIL hang"
 		}
@@ -589,7 +603,7 @@ func (w *world) exec(ws []string) (string, string) {
 			keys[i] = keyOf(id)
 		}
 		var err error
-		res := vx.Guard(func() string {
+		res := guard(func() string {
 			err = w.txn.LockKeys(context.Background(), lc, keys...)
 			return errRes(err)
 		})
